@@ -1,4 +1,6 @@
 import Rustemo.Proofs.Roundtrip
+import Rustemo.Proofs.LayoutRT
+import Rustemo.Proofs.LayoutRTExample
 import Rustemo.Props.C13
 /-!
 # C14 — the generic parse tree is lossless: tokens and layout reconstruct the input
@@ -7,9 +9,13 @@ import Rustemo.Props.C13
 token text (both are slices of the input buffer).  Proved for the default string lexer with
 whitespace skipping on or off, any recognizers, partial parsing on or off, every input.
 
-NOT proved (decided by oracle + correspondence on generated grammars and inputs): the same identity
-under a user Layout rule (whitespace, comments, nested comments), that the stored layout is
-whitespace / a sentence of the Layout rule, and that inserting layout never changes the tree.
+Under a user Layout rule the identity is proved (`C14_roundtrip_layout`) for every input that passes
+the executable check `LayoutCert.check` (`Model/LayoutCert.lean`; the driver evaluates it per input):
+layout is never parsed where a state of the main automaton finds a token, a second layout parse where
+one ended consumes nothing, and a failing layout parse has not advanced.  Without it the identity is
+FALSE of the code as it is (`C14_counterexample_relex_layout_discarded`,
+`C14_counterexample_failed_layout_advances`: known findings C14-N1, C14-N2); inputs outside the check
+stay decided by oracle + correspondence.
 -/
 namespace Rustemo.Props.C14
 open Rustemo
@@ -31,5 +37,77 @@ example : Example.env.custom = none ∧ Example.env.t.layoutState = none ∧
     Cert.noShiftStop Example.env.t = true ∧
     Cert.structural Example.env.g Example.env.t (autosOf Example.env.g Example.env.t) = true ∧
     Example.isOk (parse Example.env false 100).2 = true := by decide
+
+/-- **Round trip under a user Layout rule.**  String lexer (no whitespace skipping: the generator
+    switches it off when the grammar has a Layout rule), any recognizers, partial parsing on or off.
+    If the executable check `LayoutCert.check` passes for (table, input, fuel) and the parser returns
+    `ok r` in final context `ctx`, then the leaves of `r.tree` with their stored layout, followed by
+    the layout parsed before the end, are exactly the consumed input `input[0, ctx.pos)`; and without
+    the trailing layout they are exactly the input up to the end of the last token. -/
+theorem C14_roundtrip_layout (env : Env) (hc : env.custom = none) (hsk : env.skipWs = false)
+    (ls : Nat) (hl : env.t.layoutState = some ls)
+    (hr : RecogOk env) (hstop : Cert.noShiftStop env.t = true)
+    (hcert : Cert.structural env.g env.t (autosOf env.g env.t) = true)
+    (partialParse : Bool) (fuel : Nat) (hlay : LayoutCert.check env ls fuel = true)
+    (ctx : Ctx) (r : ParseResult) (h : parse env partialParse fuel = (ctx, .ok r)) :
+    Tree.flat env.input r.tree ++ layBytes env.input ctx.lay = env.input.take ctx.pos.pos ∧
+    Tree.flat env.input r.tree = env.input.take (endOf r.hist) :=
+  parse_roundtrip_layout env hc hsk ls hl hr (C13.noShiftStop_sound _ hstop)
+    (Cert.structural_sound _ _ _ hcert) partialParse fuel hlay ctx r h
+
+/-- non-vacuity: `S: Ta S | EMPTY; Layout: LayoutItem+; LayoutItem: WS;` on "a  a " -/
+example : ExampleLayout.Ws.env.custom = none ∧ ExampleLayout.Ws.env.skipWs = false ∧
+    ExampleLayout.Ws.env.t.layoutState = some 4 ∧
+    Cert.noShiftStop ExampleLayout.Ws.env.t = true ∧
+    Cert.structural ExampleLayout.Ws.env.g ExampleLayout.Ws.env.t
+      (autosOf ExampleLayout.Ws.env.g ExampleLayout.Ws.env.t) = true ∧
+    LayoutCert.check ExampleLayout.Ws.env 4 100 = true ∧
+    flatOf ExampleLayout.Ws.env false 100 = some ([97, 32, 32, 97, 32], [97, 32, 32, 97, 32]) := by
+  decide +kernel
+
+example : RecogOk ExampleLayout.Ws.env := Ws.recogOk
+
+/-- **The Layout-rule round trip is false without `LayoutCert.notToken`** (known finding C14-N1).
+    `S: A X | C A D; A: Ta; Layout: L; D: '#'; L: '##'` on `a##x`, table as rustemo builds it: every
+    other hypothesis of `C14_roundtrip_layout` holds, the parse is accepted, the leaves with their
+    layout reconstruct `ax`, the consumed input is `a##x` (`#` is found in the state after `a`, `A`
+    is reduced, the new state expects only `x`, the layout parser run on re-lexing consumes `##`, and
+    the layout ahead is reset to what it was before the re-lex). -/
+theorem C14_counterexample_relex_layout_discarded :
+    (ExampleLayout.N1.env.custom = none ∧ ExampleLayout.N1.env.skipWs = false ∧
+     ExampleLayout.N1.env.t.layoutState = some 8 ∧
+     Cert.noShiftStop ExampleLayout.N1.env.t = true ∧
+     Cert.structural ExampleLayout.N1.env.g ExampleLayout.N1.env.t
+       (autosOf ExampleLayout.N1.env.g ExampleLayout.N1.env.t) = true ∧
+     LayoutCert.static ExampleLayout.N1.env 8 = true ∧
+     LayoutCert.idempotent ExampleLayout.N1.env 8 100 = true ∧
+     LayoutCert.failStays ExampleLayout.N1.env 8 100 = true ∧
+     LayoutCert.notToken ExampleLayout.N1.env 8 100 = false) ∧
+    ∃ ctx r, parse ExampleLayout.N1.env false 100 = (ctx, .ok r) ∧
+      Tree.flat ExampleLayout.N1.input r.tree ++ layBytes ExampleLayout.N1.input ctx.lay = [97, 120] ∧
+      ExampleLayout.N1.input.take ctx.pos.pos = [97, 35, 35, 120] := by
+  refine ⟨by decide +kernel, ?_⟩
+  exact flatOf_spec ExampleLayout.N1.env false 100 _ _ (by decide +kernel)
+
+/-- **… and without `LayoutCert.failStays`** (known finding C14-N2).
+    `S: A Bopt; A: Ta; Bopt: Tb | EMPTY; Layout: LP WS RP` on `a( b` with partial parsing: the layout
+    parser shifts `(` and the blank, fails at `b`, and leaves the position there; the synthetic STOP
+    lets `A` be reduced, the lexer re-run at the advanced position finds `b`.  Leaves: `ab`,
+    consumed input: `a( b`. -/
+theorem C14_counterexample_failed_layout_advances :
+    (ExampleLayout.N2.env.custom = none ∧ ExampleLayout.N2.env.skipWs = false ∧
+     ExampleLayout.N2.env.t.layoutState = some 6 ∧
+     Cert.noShiftStop ExampleLayout.N2.env.t = true ∧
+     Cert.structural ExampleLayout.N2.env.g ExampleLayout.N2.env.t
+       (autosOf ExampleLayout.N2.env.g ExampleLayout.N2.env.t) = true ∧
+     LayoutCert.static ExampleLayout.N2.env 6 = true ∧
+     LayoutCert.idempotent ExampleLayout.N2.env 6 100 = true ∧
+     LayoutCert.notToken ExampleLayout.N2.env 6 100 = true ∧
+     LayoutCert.failStays ExampleLayout.N2.env 6 100 = false) ∧
+    ∃ ctx r, parse ExampleLayout.N2.env true 100 = (ctx, .ok r) ∧
+      Tree.flat ExampleLayout.N2.input r.tree ++ layBytes ExampleLayout.N2.input ctx.lay = [97, 98] ∧
+      ExampleLayout.N2.input.take ctx.pos.pos = [97, 40, 32, 98] := by
+  refine ⟨by decide +kernel, ?_⟩
+  exact flatOf_spec ExampleLayout.N2.env true 100 _ _ (by decide +kernel)
 
 end Rustemo.Props.C14
